@@ -175,6 +175,10 @@ def _interp_check_arg_in_bounds(fn, btype, xpos, two_element=False):
             return any(test(v) for v in e.values)
         if isinstance(e, ast.UnaryOp) and isinstance(e.op, ast.Not):
             return not test(e.operand)
+        if isinstance(e, ast.IfExp):
+            return test(e.body) if test(e.test) else test(e.orelse)
+        if isinstance(e, ast.Call) and ast.unparse(e.func) in ("np.any", "np.all", "bool") and len(e.args) == 1 and isinstance(e.args[0], (ast.IfExp, ast.BoolOp)):
+            return test(e.args[0])
         t = ast.unparse(e)
         if t == "len(bnd) == 2":
             return two_element
@@ -196,7 +200,10 @@ def _interp_check_arg_in_bounds(fn, btype, xpos, two_element=False):
                 if r is not None:
                     return r
             elif isinstance(st, ast.Assign) and ast.unparse(st.targets[0]) == "error_case":
-                env["error_case"] = st.value.value
+                v = st.value
+                while isinstance(v, ast.IfExp):
+                    v = v.body if test(v.test) else v.orelse
+                env["error_case"] = v.value
             elif isinstance(st, ast.Return):
                 return ("ret", env["error_case"] if ast.unparse(st.value) == "error_case" else ast.unparse(st.value))
             elif isinstance(st, ast.Expr) and isinstance(st.value, ast.Call) and ast.unparse(st.value.func) == "bnd.append" and isinstance(st.value.args[0], ast.Constant):
